@@ -1,5 +1,7 @@
 import ArgMapper.Model.Dijkstra
 import ArgMapper.Generated.Consts
+import ArgMapper.Proofs.DijkstraGreedy
+import ArgMapper.Proofs.DijkstraExact
 /-!
 # C18 — shortest-path search returns exact distances and real paths
 
@@ -38,7 +40,8 @@ the resolver proofs use (the resolver runs Dijkstra with weight −1 edges). -/
 theorem tree (g : AGraph α) (src : α) (pops : List α) (hnd : pops.Nodup) (v : α) :
     IsPath g (chain g src pops v) ∧ (chain g src pops v).getLast? = some v ∧
     ∃ r, (chain g src pops v).head? = some r ∧ (run g src pops).prev r = none := by
-  sorry
+  obtain ⟨_, h1, h2, h3⟩ := DijkstraProofs.tree_aux g src pops hnd v
+  exact ⟨h1, h2, h3⟩
 
 /-- **C18_dist_exact / C18_path_real** — non-negative weights, no overflow, any legal pop order:
 every vertex reachable from the source gets its true minimum distance, and its predecessor chain
@@ -47,24 +50,31 @@ theorem dist_exact (g : AGraph α) (hwf : g.WF) (src : α) (hs : src ∈ g.verts
     (hl : LegalPops g src pops) (hno : NoOverflow g) (v : α) (hr : Reach g src v) :
     IsDist g src v ((run g src pops).dist v) ∧
     PathFromTo g src v (chain g src pops v) ∧
-    pathWeight g (chain g src pops v) = (run g src pops).dist v := by
-  sorry
+    pathWeight g (chain g src pops v) = (run g src pops).dist v :=
+  DijkstraProofs.dist_exact_aux ⟨hwf, hs, hno.1, hno.2⟩ pops hl v hr
 
 /-- **C18_unreachable** — all weights, any duplicate-free pop order: the predecessor chain of a
 vertex that is not reachable from the source never contains the source. -/
 theorem unreachable (g : AGraph α) (src : α) (pops : List α) (hnd : pops.Nodup) (v : α)
     (hnr : ¬ Reach g src v) : src ∉ chain g src pops v := by
-  sorry
+  obtain ⟨_, h1, h2, _⟩ := DijkstraProofs.tree_aux g src pops hnd v
+  exact fun hm => hnr (DijkstraProofs.reach_of_mem_path h1 h2 src hm)
 
 /-- legal pop orders exist (the greedy one), so `dist_exact` is not vacuous -/
 theorem greedy_legal (g : AGraph α) (hwf : g.WF) (src : α) (hs : src ∈ g.verts) :
     LegalPops g src (greedyPops g g.verts.length (init src)) := by
-  sorry
+  -- (neither hypothesis is needed: the greedy order is legal on any graph and source)
+  have _ := hwf; have _ := hs
+  exact DijkstraProofs.greedy_legal_aux g src
 
 /-- non-vacuity: a concrete cyclic graph with a zero-weight edge meets every hypothesis -/
 example : let g : AGraph Nat := ⟨[0, 1, 2, 3], [(0, 1, 2), (1, 2, 0), (0, 2, 5), (2, 0, 1)]⟩
     g.WF ∧ NoOverflow g ∧ LegalPops g 0 [0, 1, 2, 3] ∧ Reach g 0 2 ∧
     (run g 0 [0, 1, 2, 3]).dist 2 = 2 := by
-  sorry
+  intro g
+  refine ⟨⟨by decide, by decide, by decide⟩, ⟨by decide, by decide⟩, ⟨by decide, by decide, ?_⟩, ?_,
+    by decide⟩
+  · intro v hv; exact hv
+  · exact Reach.step (Reach.step (Reach.refl 0) (v := 0) (w := 1) (by decide)) (w := 2) (by decide)
 
 end ArgMapper.C18
